@@ -14,6 +14,12 @@
 (*    its prefixes; the FIRST table that exists is used; a key missing in  *)
 (*    that table (or no table at all) yields the key itself; every         *)
 (*    parameter occurrence in the template is replaced.                    *)
+(*  DisabledAuthentication / FixedAuthentication                            *)
+(*    passage-adapters/src/authentication/{disabled,fixed}.rs: nobody is   *)
+(*    asked; "disabled" vouches for whatever the client claimed (without   *)
+(*    properties), "fixed" for the configured profile whatever was claimed *)
+(*  FixedDiscovery     passage-adapters/src/discovery/fixed.rs             *)
+(*    every call yields the configured targets, all of them, in order      *)
 (* Locales are sequences of parts (<<"de","DE">> = "de_DE").               *)
 (***************************************************************************)
 EXTENDS Integers, Sequences, FiniteSets, TLC
@@ -36,6 +42,14 @@ ChosenTable(tables, requested, default) ==
 Localize(tables, requested, default, key) ==
   LET t == ChosenTable(tables, requested, default) IN
   IF t = <<>> \/ key \notin tables[t] THEN [from |-> <<>>, text |-> "key"] ELSE [from |-> t, text |-> "template"]
+
+\* ---- DisabledAuthentication / FixedAuthentication ----
+\* claimed, fixed: [who |-> identity label, props |-> number of profile properties]
+AuthAnswer(kind, claimed, fixed) == IF kind = "disabled" THEN [who |-> claimed.who, props |-> 0] ELSE fixed
+
+\* ---- FixedDiscovery ----
+\* what the k-th call returns (k >= 1): the adapter has no state
+DiscoverAnswer(targets, k) == targets
 
 \* design facts checked by TLC over the finite domain of MC_Builtins
 RegionBeforeLanguage == TRUE
